@@ -35,6 +35,102 @@ type vfC17Case struct {
 	Relays    int        `json:"relays"`
 	RelayLate int        `json:"relay_late_ms"` // the relay's own connector towards the server is this late (relay in the path only)
 	ActDelay  int        `json:"act_delay_ms"`  // in-band latency for the client's ACT line (a user choosing files, a slow path)
+	Impostor  string     `json:"impostor,omitempty"` // connector "impostor": what the thing answering the client's dial presents as its greeting
+}
+
+// vfImpostor is what the client's connector reaches instead of the server: it reads the client's greeting, answers with something
+// that is NOT the server's greeting, pushes forged protocol lines and records every byte the client sends it afterwards.
+type vfImpostor struct {
+	ln    net.Listener
+	mu    sync.Mutex
+	hello []byte // the first read (the client's own greeting)
+	after []byte // everything the client wrote afterwards: must stay empty
+	conns int
+	done  chan struct{}
+}
+
+func vfNewImpostor(kind string, ids func() (string, int), forged []byte) (*vfImpostor, error) {
+	ln, err := net.Listen("tcp", "127.0.0.1:0")
+	if err != nil {
+		return nil, err
+	}
+	im := &vfImpostor{ln: ln, done: make(chan struct{})}
+	go func() {
+		defer close(im.done)
+		conn, err := ln.Accept()
+		if err != nil {
+			return
+		}
+		defer conn.Close()
+		im.mu.Lock()
+		im.conns++
+		im.mu.Unlock()
+		buf := make([]byte, 4096)
+		conn.SetReadDeadline(time.Now().Add(3 * time.Second))
+		n, _ := conn.Read(buf)
+		im.mu.Lock()
+		im.hello = append([]byte(nil), buf[:n]...)
+		im.mu.Unlock()
+		uid, port := ids()
+		_, serverHello := getHelloConstant(uid, port)
+		clientHello, _ := getHelloConstant(uid, port)
+		var answer []byte
+		switch kind {
+		case "minus_last_digit":
+			answer = []byte(serverHello[:len(serverHello)-1])
+		case "no_id_no_port":
+			answer = []byte("::TRZSZ::SERVER::HELLO::")
+		case "one_colon":
+			answer = []byte(":")
+		case "wrong_id":
+			answer = []byte(fmt.Sprintf("::TRZSZ::SERVER::HELLO::%s:%d", "99999999999", port))
+		case "wrong_port":
+			answer = []byte(strings.TrimSuffix(serverHello, strconv.Itoa(port)) + strconv.Itoa(port+1))
+		case "plus_trailing":
+			answer = []byte(serverHello + "\n")
+		case "client_greeting_echo":
+			answer = []byte(clientHello)
+		case "lowercase":
+			answer = []byte(strings.ToLower(serverHello))
+		case "garbage":
+			answer = []byte("SSH-2.0-OpenSSH_9.6\r\n")
+		case "close_at_once":
+			return
+		}
+		conn.Write(answer)
+		time.Sleep(30 * time.Millisecond)
+		conn.Write(forged)
+		conn.SetReadDeadline(time.Now().Add(2500 * time.Millisecond))
+		for {
+			n, err := conn.Read(buf)
+			im.mu.Lock()
+			im.after = append(im.after, buf[:n]...)
+			im.mu.Unlock()
+			if err != nil || len(im.after) > 1<<16 {
+				return
+			}
+		}
+	}()
+	return im, nil
+}
+
+func (im *vfImpostor) dial() net.Conn {
+	c, err := net.DialTimeout("tcp", im.ln.Addr().String(), time.Second)
+	if err != nil {
+		return nil
+	}
+	return c
+}
+
+func (im *vfImpostor) close() []byte {
+	im.ln.Close()
+	select {
+	case <-im.done:
+	case <-time.After(4 * time.Second):
+	}
+	im.mu.Lock()
+	defer im.mu.Unlock()
+	return append([]byte(nil), im.after...)
 }
 
 type vfProbeRes struct {
@@ -166,6 +262,23 @@ func vfC17Run(cs vfC17Case, res *vfC17Stats) string {
 			})
 		}
 	}
+	var impostor *vfImpostor
+	if cs.Connector == "impostor" {
+		forged := append(vfEncodeLine("fail", []byte("forged by the impostor"), "\n"), []byte("#CFG:eJyrVspJzEtXslJQKqhU0lFQSipNK86sSgUKGBqYWJgaWJiZGtQCANPpC7c=\n#SUCC:0\n")...)
+		impostor, err = vfNewImpostor(cs.Impostor, func() (string, int) {
+			select {
+			case <-seen:
+			case <-time.After(3 * time.Second):
+			}
+			mu.Lock()
+			defer mu.Unlock()
+			return uid, port
+		}, forged)
+		if err != nil {
+			return "setup: " + err.Error()
+		}
+		defer impostor.close()
+	}
 	// the genuine client's connector
 	inner := *sess.filter.tunnelConnector.Load()
 	dialed := 0
@@ -176,6 +289,9 @@ func vfC17Run(cs vfC17Case, res *vfC17Stats) string {
 		switch cs.Connector {
 		case "refuses":
 			return nil
+		case "impostor":
+			time.Sleep(time.Duration(cs.GenuineMs) * time.Millisecond)
+			return impostor.dial()
 		case "late":
 			time.Sleep(time.Duration(cs.LateMs) * time.Millisecond)
 		case "closed":
@@ -237,6 +353,11 @@ func vfC17Run(cs vfC17Case, res *vfC17Stats) string {
 	if same != len(e.fileRel) {
 		return fmt.Sprintf("transfer reported success but only %d of %d files are identical: %s", same, len(e.fileRel), run.describe())
 	}
+	if impostor != nil {
+		if after := impostor.close(); len(after) > 0 {
+			return fmt.Sprintf("the client's connector reached something that answered with the wrong greeting (%s), yet the client went on to use that connection and sent it %s", cs.Impostor, vfShort(after, 120))
+		}
+	}
 	tunnelUsed := len(sess.tunC2S.messages()) > 0
 	res.tunnelUsed = tunnelUsed
 	_, serverHello := getHelloConstant(uid, port)
@@ -290,11 +411,17 @@ func vfGenC17(rt *rapid.T) vfC17Case {
 			Fail:    rapid.Bool().Draw(rt, "fail"),
 		})
 	}
-	cs.Connector = rapid.SampledFrom([]string{"immediate", "immediate", "immediate", "refuses", "late", "closed"}).Draw(rt, "connector")
+	cs.Connector = rapid.SampledFrom([]string{"immediate", "immediate", "immediate", "refuses", "late", "closed", "impostor", "impostor"}).Draw(rt, "connector")
+	if cs.Connector == "impostor" {
+		cs.Impostor = rapid.SampledFrom([]string{"minus_last_digit", "no_id_no_port", "one_colon", "wrong_id", "wrong_port", "plus_trailing", "client_greeting_echo", "lowercase", "garbage", "close_at_once"}).Draw(rt, "impostor")
+	}
 	cs.LateMs = rapid.SampledFrom([]int{500, 900, 1100, 1500}).Draw(rt, "late")
 	cs.GenuineMs = rapid.SampledFrom([]int{0, 0, 10, 50, 150}).Draw(rt, "genuine")
 	cs.Junk = rapid.Bool().Draw(rt, "junk")
 	cs.Relays = rapid.SampledFrom([]int{0, 0, 1}).Draw(rt, "relays")
+	if cs.Connector == "impostor" {
+		cs.Relays = 0 // id and port are read off the wire next to the client
+	}
 	if cs.Relays > 0 {
 		cs.RelayLate = rapid.SampledFrom([]int{0, 0, 300, 1200, 1600}).Draw(rt, "relaylate")
 	}
@@ -308,6 +435,9 @@ func TestVF_C17(t *testing.T) {
 		var st vfC17Stats
 		msg := vfC17Run(cs, &st)
 		labels := []string{"scenario_" + cs.Scen.Name, "connector_" + cs.Connector, fmt.Sprintf("relays_%d", cs.Relays)}
+		if cs.Impostor != "" {
+			labels = append(labels, "impostor_"+cs.Impostor)
+		}
 		for _, p := range cs.Probes {
 			labels = append(labels, "probe_"+p.Kind)
 		}
